@@ -247,6 +247,7 @@ class Tr:
     def __init__(self):
         self.fresh = 0
         self.vecs = set()     # Rust Vec accumulators declared empty (ids, plugs)
+        self.terms = set()    # locals of Rust type Term / &Term / &Entry (model: [term])
 
     def tmp(self):
         self.fresh += 1
@@ -352,6 +353,39 @@ class Tr:
                 fail('Instantiate loop without the two fresh accumulators')
             return (f'match take_ids true (N.to_nat v_n) bs stk with Some (v_ids, v_plugs, bs, stk) => {rest()} '
                     f'| None => {NONE} end')
+        # term-valued locals: `let X = match SCRUT { .. => { stmts; TERM } .. }`: every arm ends by binding X
+        m = re.fullmatch(r'let (\w+) = match (.*?) \{ (.*) \}', s)
+        if m and match_close(s, s.index('{', len('let ' + m.group(1) + ' = match ' + m.group(2)))) == len(s) - 1:
+            x = m.group(1)
+            arms = []
+            for pat, text, is_block in split_arms(m.group(3)):
+                if self.is_panic(text.strip()):
+                    arms.append((pat, text, is_block))
+                    continue
+                sts = split_stmts(text) if is_block else [text]
+                sts[-1] = f'let {x} = {sts[-1]}'
+                arms.append((pat, '; '.join(sts), True))
+            return self.match(m.group(2), arms, rest)
+        m = re.fullmatch(r'let (\w+) = Term::(Pattern|Proved)\((.*)\)', s)
+        if m:
+            pre = []
+            e = self.expr(m.group(3), pre)
+            self.terms.add(m.group(1))
+            return self.wrap_pre(pre, f"let {v(m.group(1))} := {'TPat' if m.group(2) == 'Pattern' else 'TProved'} {e} in {rest()}")
+        m = re.fullmatch(r'let (\w+) = stack\.last\(\)\.expect\(""\)', s)
+        if m:
+            self.terms.add(m.group(1))
+            return f'match stk with {v(m.group(1))} :: _ => {rest()} | [] => {NONE} end'
+        m = re.fullmatch(r'let (\w+) = &memory\[(\w+) as usize\]', s)
+        if m:
+            self.terms.add(m.group(1))
+            return f'match nth_error mem (N.to_nat {v(m.group(2))}) with Some {v(m.group(1))} => {rest()} | None => {NONE} end'
+        m = re.fullmatch(r'stack\.push\((\w+)(?:\.to_term\(\)|\.clone\(\))?\)', s)
+        if m and m.group(1) in self.terms:
+            return f'let stk := {v(m.group(1))} :: stk in {rest()}'
+        m = re.fullmatch(r'memory\.push\((\w+)\.to_entry\(\)\)', s)
+        if m and m.group(1) in self.terms:
+            return f'let mem := mem ++ [{v(m.group(1))}] in {rest()}'
         # S4 / S3 let X = EXPR (pops and partial calls come out of the expression prelude)
         m = re.fullmatch(r'let (?:mut )?(\w+) = (.*)', s)
         if m and not m.group(2).startswith('match ') and 'claims.pop()' not in m.group(2):
@@ -482,6 +516,22 @@ ALIASES = ['type Id = u8;', 'type IdList = Vec<Id>;', 'type InstByte = u8;', 'ty
            'type Memory = Vec<Entry>;']
 
 
+CONV = {'to_entry': ('Term', 'Entry'), 'to_term': ('Entry', 'Term')}
+
+
+def check_conversions(src):
+    """optional helpers `Term::to_entry` / `Entry::to_term`: tag-preserving copies (the model has ONE type [term] for both)"""
+    for name, (a, b) in CONV.items():
+        if not re.search(r'\bfn ' + name + r'\(', src):
+            continue
+        body = norm(find_fn(src.replace('    fn ' + name, '\nfn ' + name), name))
+        body = body.replace('p.clone()', 'Rc::clone(p)')
+        want = (f'fn {name}(&self) -> {b} {{ match self {{ {a}::Pattern(p) => {b}::Pattern(Rc::clone(p)), '
+                f'{a}::Proved(p) => {b}::Proved(Rc::clone(p)) }} }}')
+        if body != want:
+            fail(f'{name} is not the tag-preserving copy: ' + body[:200])
+
+
 def check_types(src):
     """the data types the model's [pat], [term] mirror, and the DERIVED structural equality that `!=` / `==` on patterns means
     (the model's [pat_eqb] compares every field incl. all five constraint lists): a hand-written PartialEq would change ModusPonens and Publish"""
@@ -540,6 +590,7 @@ def generate(repo):
     src = open(os.path.join(repo, 'rust/src/lib.rs')).read()
     src = src.split('\n#[cfg(test)]\nmod tests')[0]
     check_types(strip_strings(src))
+    check_conversions(strip_strings(src))
     readers = reader_helpers(src)
     for name, want in HELPERS.items():
         got = canon_helper(canon(norm(find_fn(src, name)), readers))
@@ -600,8 +651,27 @@ def generate(repo):
     vcode = 'Some (mkst stk mem cl)'
     steps = []
     declared = set()
-    for s in split_stmts(m.group(1)):
-        s = s.rstrip(';').strip()
+    vstmts = [x.rstrip(';').strip() for x in split_stmts(m.group(1))]
+    arrays = {}
+    flat = []
+    for s in vstmts:
+        mm = re.fullmatch(r'let (\w+) = \[(.*)\]', s)
+        if mm:
+            elems = [re.fullmatch(r'\((\w+), (ExecutionPhase::\w+)\)', e.strip()) for e in split_top(mm.group(2))]
+            if not all(elems):
+                fail('verify: array literal that is not a list of (buffer, phase) pairs: ' + s[:120])
+            arrays[mm.group(1)] = [e.groups() for e in elems]
+            continue
+        mm = re.fullmatch(r'for \((\w+), (\w+)\) in (\w+) \{ (.*) \}', s)
+        if mm and mm.group(3) in arrays:
+            for buf, ph in arrays[mm.group(3)]:
+                for b in split_stmts(mm.group(4)):
+                    b = re.sub(r'\b' + mm.group(1) + r'\b', buf, b.rstrip(';').strip())
+                    b = re.sub(r'\b' + mm.group(2) + r'\b', ph, b)
+                    flat.append(b)
+            continue
+        flat.append(s)
+    for s in flat:
         mm = re.fullmatch(r'let mut (claims|memory|stack)(?:: \w+)? = Vec::with_capacity\(\d+\)', s)
         if mm:
             declared.add(mm.group(1))
@@ -625,7 +695,8 @@ def generate(repo):
         fail('verify statement: ' + s[:120])
     for st in reversed(steps):
         if st[0] == 'init' or st[0] == 'clear':
-            vcode = f'let {st[1]} := [] in {vcode}'
+            ty = 'list pat' if st[1] == 'cl' else 'list term'
+            vcode = f'let {st[1]} : {ty} := [] in {vcode}'
         elif st[0] == 'exec':
             vcode = (f'match gen_exec {st[2]} {st[1]} (mkst stk mem cl) with Some st => let stk := stack st in let mem := memory st in '
                      f'let cl := claims st in {vcode} | None => None end')
